@@ -29,6 +29,7 @@ Tie (every run):
 """
 from __future__ import annotations
 
+import contextlib
 import json
 import math
 import shutil
@@ -64,18 +65,19 @@ class DVideo:
 
 
 class DInst:
+    """Picklable (litdata.optimize ships the inputs to worker processes): holds no module reference."""
+
     def __init__(self, pts, pred, np):
         self._pts = np.array([[float("nan")] * 2 if p is None else [float(p[0]), float(p[1])] for p in pts],
                              dtype="float64").reshape(len(pts), 2)
         self.pred = pred
-        self._np = np
 
     def numpy(self):
         return self._pts.copy()
 
     @property
     def is_empty(self):
-        return bool(self._np.isnan(self._pts).all())
+        return bool((self._pts != self._pts).all())
 
 
 class DLF:
@@ -236,6 +238,8 @@ def round_half_even_exact(q):
 def float_hazard(L, cfg):
     """Inputs on which float64 evaluation of round(h*ratio) / int(h*scale) could
     legitimately fall on the other side of the exact rational (excluded, counted)."""
+    if cfg["max_hw"][0] is None:
+        return False
     mh, mw = cfg["max_hw"]
     for v in L["videos"]:
         h, w = v["h"], v["w"]
@@ -256,16 +260,24 @@ def gen_cfg(rng, mtype, L, thorough):
     scale = rng.choice(scales[:2] * 3 + scales[2:])
     maxh = max(v["h"] for v in L["videos"])
     maxw = max(v["w"] for v in L["videos"])
-    if rng.random() < 0.4:
+    r = rng.random()
+    max_none = False
+    if r < 0.4:
         maxh += rng.choice([0, 7, 16, 40])
         maxw += rng.choice([0, 5, 16, 40])
+    elif r < 0.52:      # a target SMALLER than (some of) the frames: apply_sizematcher scales down
+        maxh = max(24, maxh - rng.choice([0, 8, 16, 24]))
+        maxw = max(24, maxw - rng.choice([0, 8, 16, 31]))
+    elif r < 0.6:       # max_height = max_width = None everywhere: no size matching at all
+        max_none = True
     n = L["n_nodes"]
     crop = rng.choice([24, 32, 40, 48, 64, 33, 50])
     crop_hw = (crop, crop) if rng.random() < 0.8 else (crop, rng.choice([24, 32, 48, 56]))
     return {
         "mtype": mtype, "scale": scale, "max_stride": rng.choice([1, 16, 32, 16, 32, 2, 8]),
         "is_rgb": rng.random() < 0.4 or any(fr["style"] == "ramp" for fr in L["frames"]),
-        "user_only": rng.random() < 0.8, "max_hw": (maxh, maxw), "cfg_max_hw": rng.random() < 0.5,
+        "user_only": rng.random() < 0.8, "max_hw": (None, None) if max_none else (maxh, maxw),
+        "cfg_max_hw": rng.random() < 0.5,
         "anchor": rng.choice([None] + list(range(n))), "crop_hw": crop_hw,
         "sigma": rng.choice([F(3, 2), F(5, 2), F(1), F(5)]), "stride": rng.choice([1, 2, 2, 4]),
         "psigma": rng.choice([F(4), F(15), F(5, 2)]), "pstride": rng.choice([2, 4, 4, 8]),
@@ -313,7 +325,22 @@ def run_dataset(L, cfg, mods, npc_path):
     first = [ds[i] for i in range(n)]
     _ = [ds[i] for i in reversed(range(n))]
     third = [ds[i] for i in range(n)]
-    return [third[i] if i % 2 else first[i] for i in range(n)] if npc_path is not None else third
+    if npc_path is None:
+        return third
+    # a second dataset object that REUSES the chunk files (use_existing_chunks=True: no _fill_cache,
+    # __len__ counts the .npz files): the same framework, so its samples take part in the comparison
+    kw2 = dict(kw, labels=build_labels(L, mods), use_existing_chunks=True)
+    if t == "single":
+        ds2 = cd.SingleInstanceDataset(**kw2)
+    elif t == "bottomup":
+        ds2 = cd.BottomUpDataset(pafs_head_config=paf, **kw2)
+    elif t == "centroid":
+        ds2 = cd.CentroidDataset(**kw2)
+    else:
+        ds2 = cd.CenteredInstanceDataset(crop_hw=tuple(cfg["crop_hw"]), **kw2)
+    if len(ds2) != n:
+        raise RuntimeError(f"use_existing_chunks dataset has {len(ds2)} samples, the generating dataset {n}")
+    return [ds2[i] if i % 3 == 2 else (third[i] if i % 2 else first[i]) for i in range(n)]
 
 
 def ser_roundtrip(v, mods):
@@ -331,48 +358,212 @@ def ser_roundtrip(v, mods):
     return s.deserialize(data)
 
 
-def run_streaming(L, cfg, mods):
-    gc, sd, ld = mods["gc"], mods["sd"], mods["ld"]
-    labels = build_labels(L, mods)
-    conf, paf = heads(cfg, mods)
-    dcfg = data_config(cfg, mods)
-    max_inst = mods["get_max_instances"](labels)
+def chunk_fn(cfg, dcfg, max_inst, mods):
+    """The function ModelTrainer / get_bin_files hands to litdata.optimize (a functools.partial)."""
+    import functools
+    gc = mods["gc"]
     t, scale, max_hw = cfg["mtype"], float(cfg["scale"]), tuple(cfg["max_hw"])
+    uo = bool(cfg.get("user_only", True))
+    if t == "single":
+        return functools.partial(gc.single_instance_data_chunks, data_config=dcfg, max_hw=max_hw,
+                                 user_instances_only=uo, scale=scale)
+    if t == "bottomup":
+        return functools.partial(gc.bottomup_data_chunks, data_config=dcfg, max_instances=max_inst, max_hw=max_hw,
+                                 user_instances_only=uo, scale=scale)
+    if t == "centroid":
+        return functools.partial(gc.centroid_data_chunks, data_config=dcfg, max_instances=max_inst,
+                                 anchor_ind=cfg["anchor"], max_hw=max_hw, user_instances_only=uo, scale=scale)
+    return functools.partial(gc.centered_instance_data_chunks, data_config=dcfg, max_instances=max_inst,
+                             crop_size=tuple(cfg["crop_hw"]), anchor_ind=cfg["anchor"], max_hw=max_hw,
+                             user_instances_only=uo, scale=scale)
+
+
+def streaming_dataset(cfg, labels, mods, **kw):
+    sd = mods["sd"]
+    conf, paf = heads(cfg, mods)
+    t = cfg["mtype"]
+    common = dict(confmap_head=conf, max_stride=cfg["max_stride"], apply_aug=False, augmentation_config=None, **kw)
+    if t == "single":
+        return sd.SingleInstanceStreamingDataset(**common)
+    if t == "bottomup":
+        return sd.BottomUpStreamingDataset(pafs_head=paf, edge_inds=labels.skeletons[0].edge_inds, **common)
+    if t == "centroid":
+        return sd.CentroidStreamingDataset(**common)
+    return sd.CenteredInstanceStreamingDataset(crop_hw=tuple(cfg["crop_hw"]), input_scale=float(cfg["scale"]), **common)
+
+
+def run_streaming(L, cfg, mods):
+    ld = mods["ld"]
+    labels = build_labels(L, mods)
+    fn = chunk_fn(cfg, data_config(cfg, mods), mods["get_max_instances"](labels), mods)
     items = []
     for lf in labels:
-        x = (lf, labels.videos.index(lf.video))
-        if t == "single":
-            out = [gc.single_instance_data_chunks(x, data_config=dcfg, max_hw=max_hw, user_instances_only=bool(cfg.get("user_only", True)),
-                                                  scale=scale)]
-        elif t == "bottomup":
-            out = [gc.bottomup_data_chunks(x, data_config=dcfg, max_instances=max_inst, max_hw=max_hw,
-                                           user_instances_only=bool(cfg.get("user_only", True)), scale=scale)]
-        elif t == "centroid":
-            out = [gc.centroid_data_chunks(x, data_config=dcfg, max_instances=max_inst, anchor_ind=cfg["anchor"],
-                                           max_hw=max_hw, user_instances_only=bool(cfg.get("user_only", True)), scale=scale)]
-        else:
-            out = list(gc.centered_instance_data_chunks(
-                x, data_config=dcfg, max_instances=max_inst, crop_size=tuple(cfg["crop_hw"]),
-                anchor_ind=cfg["anchor"], max_hw=max_hw, user_instances_only=bool(cfg.get("user_only", True)), scale=scale))
+        out = fn((lf, labels.videos.index(lf.video)))
+        out = list(out) if cfg["mtype"] == "centered" else [out]
         for ch in out:
             items.append({k: ser_roundtrip(v, mods) for k, v in ch.items()})
     with mock.patch.object(ld.StreamingDataset, "__init__", lambda self, *a, **k: None), \
             mock.patch.object(ld.StreamingDataset, "__getitem__", lambda self, i: dict(self._sv_items[i])):
-        common = dict(confmap_head=conf, max_stride=cfg["max_stride"], apply_aug=False, augmentation_config=None)
-        if t == "single":
-            ds = sd.SingleInstanceStreamingDataset(**common)
-        elif t == "bottomup":
-            ds = sd.BottomUpStreamingDataset(pafs_head=paf, edge_inds=labels.skeletons[0].edge_inds, **common)
-        elif t == "centroid":
-            ds = sd.CentroidStreamingDataset(**common)
-        else:
-            ds = sd.CenteredInstanceStreamingDataset(crop_hw=tuple(cfg["crop_hw"]), input_scale=scale, **common)
+        ds = streaming_dataset(cfg, labels, mods)
         ds._sv_items = items
         return [ds[i] for i in range(len(items))]
 
 
-def run_frameworks(L, cfg, mods, scratch):
-    """-> {fw: list of sample dicts | Exception}"""
+def run_streaming_real(L, cfg, mods, out_dir, chunk_size):
+    """The litdata framework with NOTHING stubbed: litdata.optimize (a worker process, the real chunk
+    writer, `chunk_size` items per .bin file) on a scratch directory, then the real *StreamingDataset
+    (litdata's index/reader, __init__ and __getitem__) — as training/get_bin_files.py + ModelTrainer do."""
+    ld = mods["ld"]
+    labels = build_labels(L, mods)
+    fn = chunk_fn(cfg, data_config(cfg, mods), mods["get_max_instances"](labels), mods)
+    ld.optimize(fn=fn, inputs=[(lf, labels.videos.index(lf.video)) for lf in labels], output_dir=str(out_dir),
+                chunk_size=chunk_size, num_workers=1, verbose=False)
+    n_bins = len(list(out_dir.glob("*.bin")))
+    ds = streaming_dataset(cfg, labels, mods, input_dir=str(out_dir), shuffle=False)
+    return [ds[i] for i in range(len(ds))], n_bins
+
+
+# ------------------------------------------------------------------ the composed legacy pipelines (pipelines.py)
+def dp_max_hw(L, cfg):
+    """What SizeMatcher is built with: the config's bounds, or (both None) the provider's maximum over videos."""
+    if cfg["cfg_max_hw"] and cfg["max_hw"][0] is not None:
+        return tuple(cfg["max_hw"])
+    return max(v["h"] for v in L["videos"]), max(v["w"] for v in L["videos"])
+
+
+def run_datapipe(L, cfg, mods):
+    """LabelsReaderDP -> *Pipeline.make_training_pipeline (augmentation off).
+    -> (examples yielded, the exception that ended the iteration or None)"""
+    pl, prov = mods["pipelines"], mods["providers"]
+    labels = build_labels(L, mods)
+    conf, paf = heads(cfg, mods)
+    dcfg = data_config(cfg, mods)
+    duck = L["source"] != "asset"
+    ctx = mock.patch.object(prov.sio, "Labels", lambda videos, skeletons, labeled_frames:
+                            DLabels(labeled_frames, videos, skeletons[0])) if duck else contextlib.nullcontext()
+    with ctx:
+        provider = prov.LabelsReaderDP(labels, user_instances_only=bool(cfg.get("user_only", True)))
+    t = cfg["mtype"]
+    if t == "single":
+        p = pl.SingleInstanceConfmapsPipeline(dcfg, cfg["max_stride"], conf)
+    elif t == "bottomup":
+        p = pl.BottomUpPipeline(dcfg, cfg["max_stride"], conf, paf)
+    elif t == "centroid":
+        p = pl.CentroidConfmapsPipeline(dcfg, cfg["max_stride"], conf)
+    else:
+        p = pl.TopdownConfmapsPipeline(dcfg, cfg["max_stride"], conf, tuple(cfg["crop_hw"]))
+    out, err = [], None
+    try:
+        for ex in p.make_training_pipeline(provider, use_augmentations=False):
+            out.append(dict(ex))
+    except Exception as e:  # noqa: BLE001
+        err = e
+    return out, err
+
+
+def frame_has_user(fr):
+    return any(not i["pred"] for i in fr["insts"])
+
+
+def dp_domain(L, cfg):
+    """Where Props.c18_dp_*_pipeline prove the composed legacy pipeline equal to the in-memory dataset:
+    every frame is kept by the reader, both size matchers only pad, top-down at scale 1."""
+    if cfg["max_hw"][0] is None:
+        return False                     # datasets: no size matching; SizeMatcher: pads to the provider's maximum
+    mh, mw = cfg["max_hw"]
+    if dp_max_hw(L, cfg) != (mh, mw):
+        return False
+    if cfg.get("user_only", True) and not all(frame_has_user(fr) for fr in L["frames"]):
+        return False
+    for fr in L["frames"]:
+        v = L["videos"][fr["video"]]
+        if not (v["h"] <= mh and v["w"] <= mw and (v["h"] == mh or v["w"] == mw)):
+            return False
+    return cfg["mtype"] != "centered" or cfg["scale"] == 1
+
+
+DP_KEYS = {
+    "single": (["image"], ["instances"], ["confidence_maps"]),
+    "bottomup": (["image"], [], ["confidence_maps", "part_affinity_fields"]),
+    "centroid": (["image"], [], ["centroids_confidence_maps"]),
+    "centered": (["instance_image"], ["instance", "centroid"], ["confidence_maps"]),
+}
+
+
+def dp_oracle(L, cfg, dp, mem, mods):
+    """Composed legacy pipeline vs in-memory dataset, same (frame, instance).  None or reason."""
+    out, err = dp
+    if err is not None:
+        return f"the composed DataPipe pipeline raised {type(err).__name__}: {str(err)[:200]}"
+    if isinstance(mem, Exception):
+        return None
+    if len(out) != len(mem):
+        return f"{len(out)} examples vs {len(mem)} dataset samples"
+    imgs, pts, maps = DP_KEYS[cfg["mtype"]]
+    if cfg["mtype"] == "centered":
+        # kornia's crop_and_resize interpolates ONCE in the block (one crop) and TWICE in the datasets (sqrt-2
+        # over-crop, re-crop at a possibly half-integer offset): same geometry (Props.c18_double_crop, tied by
+        # the content-map probe on ramp frames), different pixel values on textured images -> not compared here
+        imgs = []
+    for i, (a, b) in enumerate(zip(out, mem)):
+        for k in ("frame_idx", "video_idx"):
+            if int(a[k]) != int(b[k]):
+                return f"example {i}: {k} {int(a[k])} vs {int(b[k])}"
+        for keys, atol, rtol in ((imgs, 2e-6, 0), (pts, PT_ATOL, PT_RTOL), (maps, MAP_ATOL, 0)):
+            for k in keys:
+                if k not in a:
+                    return f"example {i}: key {k} missing from the DataPipe example"
+                r = close(canon(k, a[k], L["n_nodes"], mods), canon(k, b[k], L["n_nodes"], mods), atol, rtol, mods)
+                if r:
+                    return f"example {i}: {k}: {r}"
+    return None
+
+
+def dp_model_terms(L, cfg, wt):
+    """[(frame index, k, term)] for the frames the reader keeps, in order."""
+    maxinst = max(len(fr["insts"]) for fr in L["frames"])
+    uo = cfg.get("user_only", True)
+    ct = cfg_term(cfg, L, wt, max_hw=dp_max_hw(L, cfg))
+    plan = []
+    for fi, fr in enumerate(L["frames"]):
+        if uo and not frame_has_user(fr):
+            continue
+        ft = frame_term(L, fr, maxinst, uo)
+        if cfg["mtype"] == "centered":
+            ne = [i for i in effective_instances(fr, uo) if any(p is not None for p in i["pts"])]
+            plan += [(fi, k, f"CDPipe (Centered {k}%nat) {ct} {ft}") for k in range(len(ne))]
+        else:
+            t = {"single": "Single", "bottomup": "BottomUp", "centroid": "Centroid"}[cfg["mtype"]]
+            plan.append((fi, None, f"CDPipe {t} {ct} {ft}"))
+    return plan
+
+
+def dp_compare_with_model(L, cfg, dp, plan, ms, mods, stats):
+    """Examples of the composed pipeline vs Pipelines.dp_pipeline; [] in the model = SizeMatcher raises there."""
+    out, err = dp
+    n_ok = 0
+    for m in ms:
+        if not m:
+            break
+        n_ok += 1
+    raises = n_ok < len(ms)
+    if raises and err is None:
+        return f"the model says SizeMatcher raises at example {n_ok}; the pipeline yielded {len(out)} examples without error"
+    if not raises and err is not None:
+        return f"the pipeline raised {type(err).__name__}: {str(err)[:200]}; the model yields {len(ms)} examples"
+    if len(out) != n_ok:
+        return f"{len(out)} examples before the end, the model {n_ok}"
+    for i in range(n_ok):
+        fi = plan[i][0]
+        why = compare_with_model(cfg["mtype"], "DP", out[i], ms[i][0], L, mods, L["frames"][fi], stats, lenient=True)
+        if why:
+            return f"example {i}: {why}"
+    return None
+
+
+def run_frameworks(L, cfg, mods, scratch, lit=None):
+    """-> {fw: list of sample dicts | Exception}; plus "DP": (examples, exception) of the composed legacy
+    pipeline, and, when `lit` (= chunk_size) is given, "Lit": the real litdata round trip on disk."""
     res = {}
     for fw in FWS:
         try:
@@ -388,6 +579,18 @@ def run_frameworks(L, cfg, mods, scratch):
                 res[fw] = run_streaming(L, cfg, mods)
         except Exception as e:  # noqa: BLE001
             res[fw] = e
+    try:
+        res["DP"] = run_datapipe(L, cfg, mods)
+    except Exception as e:  # noqa: BLE001
+        res["DP"] = ([], e)
+    if lit:
+        d = scratch / "lit"
+        shutil.rmtree(d, ignore_errors=True)
+        try:
+            res["Lit"], res["Lit_bins"] = run_streaming_real(L, cfg, mods, d, lit)
+        except Exception as e:  # noqa: BLE001
+            res["Lit"], res["Lit_bins"] = e, 0
+        shutil.rmtree(d, ignore_errors=True)
     return res
 
 
@@ -466,7 +669,10 @@ def oracle(L, cfg, res, mods):
             bad.append(((fw,), f"{fw} raised {type(res[fw]).__name__}: {res[fw]}"))
     if bad:
         return bad
-    for pair in (("Mem", "Npc"), ("Mem", "Str")):
+    if isinstance(res.get("Lit"), Exception):
+        bad.append((("Lit",), f"litdata.optimize + *StreamingDataset raised {type(res['Lit']).__name__}: {str(res['Lit'])[:300]}"))
+    pairs = [("Mem", "Npc"), ("Mem", "Str")] + ([("Mem", "Lit")] if isinstance(res.get("Lit"), list) else [])
+    for pair in pairs:
         if not in_domain(cfg, pair):
             continue
         A, B = res[pair[0]], res[pair[1]]
@@ -478,6 +684,10 @@ def oracle(L, cfg, res, mods):
             if r:
                 bad.append((pair, f"sample {i}: {r}"))
                 break
+    if "DP" in res and dp_domain(L, cfg):
+        r = dp_oracle(L, cfg, res["DP"], res["Mem"], mods)
+        if r:
+            bad.append((("DP", "Mem"), r))
     return bad
 
 
@@ -496,13 +706,14 @@ def effective_instances(fr, user_only=True):
     return user if (user and user_only) else fr["insts"]
 
 
-def cfg_term(cfg, L, wt):
+def cfg_term(cfg, L, wt, max_hw=None):
     a = "None" if cfg["anchor"] is None else f"(Some {cfg['anchor']}%nat)"
-    mh, mw = cfg["max_hw"]
-    return ("{| c_rgb := %s; c_maxh := Some %s; c_maxw := Some %s; c_scale := %s; c_ms := %s; c_anchor := %s; "
+    mh, mw = max_hw or cfg["max_hw"]
+    return ("{| c_rgb := %s; c_maxh := %s; c_maxw := %s; c_scale := %s; c_ms := %s; c_anchor := %s; "
             "c_croph := %s; c_cropw := %s; c_sigma := %s; c_stride := %d%%nat; c_psigma := %s; c_pstride := %d%%nat; "
             "c_edges := %s; c_wt := %s |}") % (
-        core.cbool(cfg["is_rgb"]), core.cz(mh), core.cz(mw), core.cq(cfg["scale"]), core.cz(cfg["max_stride"]), a,
+        core.cbool(cfg["is_rgb"]), core.copt(mh, core.cz), core.copt(mw, core.cz), core.cq(cfg["scale"]),
+        core.cz(cfg["max_stride"]), a,
         core.cz(cfg["crop_hw"][0]), core.cz(cfg["crop_hw"][1]), core.cq(cfg["sigma"]), cfg["stride"],
         core.cq(cfg["psigma"]), cfg["pstride"],
         core.clist(L["edges"], lambda e: f"({e[0]}%nat, {e[1]}%nat)"), core.cbool(wt))
@@ -550,7 +761,7 @@ def pts_tensor(pts, mods):
                                 dtype=mods["torch"].float32).reshape(len(pts), 2)
 
 
-def probe_content_map(img, geom, v, fw, mods):
+def probe_content_map(img, geom, v, fw, mods, out_margin=0):
     """Ramp frame (R = 2x, G = 2y, B = 1): every valid output pixel tells which source
     coordinate it shows; compare with the model's content map x_out = ma*x_src + mb.
     -> (reason or None, number of pixels probed)"""
@@ -559,27 +770,37 @@ def probe_content_map(img, geom, v, fw, mods):
     if c != 3:
         return None, 0
     ax, bx, ay, by = q2f(gx[0]), q2f(gx[1]), q2f(gy[0]), q2f(gy[1])
-    quant = fw != "Mem"
+    quant = fw not in ("Mem", "DP")
     R, G, B = img[0, 0].double(), img[0, 1].double(), img[0, 2].double()
     xs = (torch.arange(w, dtype=torch.float64) - bx) / ax
     ys = (torch.arange(h, dtype=torch.float64) - by) / ay
     mx, my = 3 * max(1.0, 1.0 / ax), 3 * max(1.0, 1.0 / ay)
     okx = (xs >= mx) & (xs <= v["w"] - 1 - mx)
     oky = (ys >= my) & (ys <= v["h"] - 1 - my)
-    mask = (B > (0.995 if quant else 0.99999)) & okx[None, :] & oky[:, None]
+    if out_margin:      # a RESIZED CROP (composed top-down pipeline at scale != 1): resampling clamps at the crop's own border
+        ix, iy = torch.arange(w), torch.arange(h)
+        okx &= (ix >= out_margin) & (ix <= w - 1 - out_margin)
+        oky &= (iy >= out_margin) & (iy <= h - 1 - out_margin)
+    valid = B > (0.995 if quant else 0.99999)
+    if out_margin:      # ... and stay that far away from the stride padding that follows the resized crop
+        inv = (~valid).float()[None, None]
+        valid = valid & ~(torch.nn.functional.max_pool2d(inv, 2 * out_margin + 1, stride=1, padding=out_margin)[0, 0] > 0)
+    mask = valid & okx[None, :] & oky[:, None]
     n = int(mask.sum())
     if n == 0:
         return None, 0
     ex = float((R * 255 / 2 - xs[None, :]).abs()[mask].max())
     ey = float((G * 255 / 2 - ys[:, None]).abs()[mask].max())
     tol = 1.0 if quant else 0.08     # antialiased non-integer resampling of a ramp is linear only to ~0.04 px
+    if not quant and min(ax, ay) < 1 and ((ax * 8) % 1 or (ay * 8) % 1):
+        tol = 0.15                   # size matcher scaling DOWN by a non-dyadic ratio (max_hw < frame): wider antialias kernel
     if max(ex, ey) > tol:
         return (f"content map: pixels show source coordinates off by ({ex:.4g}, {ey:.4g}) px from the model's map "
                 f"x: {ax}*x+{bx}, y: {ay}*y+{by} (tolerance {tol})"), n
     return None, n
 
 
-def compare_with_model(mtype, fw, smp, m, L, mods, fr=None, stats=None):
+def compare_with_model(mtype, fw, smp, m, L, mods, fr=None, stats=None, lenient=False):
     """One real sample vs the model's `out` (JSON).  None or reason."""
     torch = mods["torch"]
     n = L["n_nodes"]
@@ -591,27 +812,30 @@ def compare_with_model(mtype, fw, smp, m, L, mods, fr=None, stats=None):
         return f"{imgs[0]} shape {tuple(img.shape)} vs model {(1, c, h, w)}"
     if not isfloat or img.dtype != torch.float32 or float(img.max()) > 1.0 + 1e-6 or float(img.min()) < -1e-6:
         return f"{imgs[0]}: dtype {img.dtype}, range [{float(img.min())}, {float(img.max())}], model float={isfloat}"
-    if nq != (0 if fw == "Mem" else 1):
+    if nq != (0 if fw in ("Mem", "DP") else 1):
         return f"model counts {nq} 8-bit round trips for {fw}"
     if fr is not None and fr.get("style") == "ramp":
-        r, npx = probe_content_map(img, geom, L["videos"][fr["video"]], fw, mods)
+        r, npx = probe_content_map(img, geom, L["videos"][fr["video"]], fw, mods,
+                                   out_margin=3 if (fw == "DP" and mtype == "centered") else 0)
         if stats is not None:
             stats["content_map_pixels_probed"] = stats.get("content_map_pixels_probed", 0) + npx
             stats["content_map_samples_probed"] = stats.get("content_map_samples_probed", 0) + (npx > 0)
         if r:
             return r
     pk = "instance" if mtype == "centered" else "instances"
-    got = canon(pk, smp[pk], n, mods)
     mpts = torch.stack([pts_tensor(i, mods) for i in pts]) if pts else torch.zeros((0, n, 2))
-    r = close(got, mpts, PT_ATOL, PT_RTOL, mods)
-    if r:
-        return f"{pk} vs model: {r}"
+    if pk in smp or not lenient:           # lenient: KeyFilter of the legacy pipelines drops some keys
+        got = canon(pk, smp[pk], n, mods)
+        r = close(got, mpts, PT_ATOL, PT_RTOL, mods)
+        if r:
+            return f"{pk} vs model: {r}"
     if mtype in ("centroid", "centered"):
         ck = "centroid" if mtype == "centered" else "centroids"
-        r = close(canon(ck, smp[ck], n, mods), pts_tensor(cents, mods), PT_ATOL, PT_RTOL, mods)
-        if r:
-            return f"{ck} vs model: {r}"
-    if int(smp["num_instances"]) != num:
+        if ck in smp or not lenient:
+            r = close(canon(ck, smp[ck], n, mods), pts_tensor(cents, mods), PT_ATOL, PT_RTOL, mods)
+            if r:
+                return f"{ck} vs model: {r}"
+    if ("num_instances" in smp or not lenient) and int(smp["num_instances"]) != num:
         return f"num_instances {int(smp['num_instances'])} vs model {num}"
     if mtype == "centered":
         r = close(tens(smp["instance_bbox"], mods).reshape(4, 2)[0:1], pts_tensor([tl], mods), PT_ATOL, PT_RTOL, mods)
@@ -681,6 +905,30 @@ def gen_block(rng, kind):
         cents = [next(p for p in i if p is not None) for i in insts]
         cents = [(c[0] + F(rng.randrange(-16, 17), 8), c[1] + F(rng.randrange(-16, 17), 8)) for c in cents]
         b.update(insts=insts, cents=cents, num=rng.randint(0, m), crop=(rng.choice([8, 16, 21, 32]), rng.choice([8, 16, 24])))
+    elif kind == "sm":
+        # SizeMatcher vs apply_sizematcher: equal / one side larger (both only pad: the proven common domain),
+        # both sides larger (block pads, function rescales), a side smaller (block raises, function scales down)
+        while True:
+            mode = rng.choice(["same", "pad_h", "pad_w", "both", "smaller"])
+            dh, dw = rng.choice([3, 8, 16, 25]), rng.choice([4, 9, 16, 31])
+            mh = h + (dh if mode in ("pad_h", "both") else -min(dh, h - 8) if mode == "smaller" else 0)
+            mw = w + (dw if mode in ("pad_w", "both") else -min(dw, w - 8) if mode == "smaller" and rng.random() < 0.5 else 0)
+            eff = min(F(mh, h), F(mw, w))
+            if all(abs((k * eff) % 1 - F(1, 2)) > F(1, 1000) for k in (h, w)):
+                break
+        b.update(mh=mh, mw=mw, mode=mode)
+    elif kind == "rd":
+        nf = rng.choice([1, 2])
+        frames = []
+        for _ in range(nf):
+            k = rng.choice([1, 1, 2, 3])
+            insts = [{"pts": gen_pts(rng, n, h, w, 0.2), "pred": rng.random() < 0.3} for _ in range(k)]
+            if rng.random() < 0.2:
+                insts.insert(rng.randrange(k + 1), {"pts": [None] * n, "pred": False})
+            if all(all(p is None for p in i["pts"]) for i in insts if not i["pred"]) and any(not i["pred"] for i in insts):
+                insts[0] = {"pts": gen_pts(rng, n, h, w, 0), "pred": False}     # user instances all empty: np.stack raises
+            frames.append(insts)
+        b.update(frames=frames, user_only=rng.random() < 0.7)
     elif kind in ("cm", "mcm", "ccm", "paf"):
         nodes = list(range(max(n, 2)))
         b["n"] = n = max(n, 2) if kind == "paf" else n
@@ -826,6 +1074,80 @@ def run_block(b, mods, wt):
                     if rr:
                         return f"crop vs model: {rr}"
         return r, terms, chk
+    if k == "sm":
+        img = block_image(b, mods)
+        fi, eff = mods["rs"].apply_sizematcher(img.clone(), b["mh"], b["mw"])
+        try:
+            dp = first(mods["rs"].SizeMatcher([{"image": img.clone()}], max_height=b["mh"], max_width=b["mw"]))[0]["image"]
+        except Exception as e:  # noqa: BLE001
+            dp = e
+        common = b["mode"] in ("same", "pad_h", "pad_w")        # Props.c18_dp_sizematcher_pad_only
+        r = None
+        if common:
+            r = (f"SizeMatcher raised {dp}" if isinstance(dp, Exception) else eq(dp, fi)) or \
+                (None if abs(float(eff) - 1.0) < 1e-9 else f"apply_sizematcher eff_scale {eff} where it only pads")
+        terms = [f"CBlockSizeMatcher {core.cbool(d)} (Some {core.cz(b['mh'])}) (Some {core.cz(b['mw'])}) "
+                 f"{geom_term(b['h'], b['w'], b['c'], True)}" for d in (True, False)]
+
+        def chk(ms):
+            md, mf = ms
+            if (not md) != isinstance(dp, Exception):
+                return f"SizeMatcher raises: model {not md}, impl {isinstance(dp, Exception)} ({b['mode']})"
+            if md:
+                (c, h, w), gx, gy, _, _ = md[0][0]
+                if tuple(dp.shape) != (1, c, h, w):
+                    return f"SizeMatcher size {tuple(dp.shape)} vs model {(c, h, w)}"
+                if not torch.equal(dp[..., :b["h"], :b["w"]], img) or q2f(gx[0]) != 1 or q2f(gx[1]) != 0:
+                    return "SizeMatcher moved the content (model / impl)"
+            (c, h, w), gx, gy, _, _ = mf[0][0]
+            if tuple(fi.shape) != (1, c, h, w):
+                return f"apply_sizematcher size {tuple(fi.shape)} vs model {(c, h, w)}"
+            me = q2f(mf[0][2][0][0])
+            if abs(me - float(eff)) > 1e-9 * max(1, me):
+                return f"apply_sizematcher eff_scale {eff} vs model {me}"
+        return r, terms, chk
+    if k == "rd":
+        prov = mods["providers"]
+        L1 = {"source": "duck", "n_nodes": b["n"], "edges": [], "videos": [{"n": 4, "h": b["h"], "w": b["w"], "c": b["c"]}],
+              "frames": [{"video": 0, "frame_idx": fi, "img_seed": b["seed"] + fi, "style": "noise", "insts": insts}
+                         for fi, insts in enumerate(b["frames"])]}
+        labels = build_labels(L1, mods)
+        M = mods["get_max_instances"](labels)
+        with mock.patch.object(prov.sio, "Labels", lambda videos, skeletons, labeled_frames:
+                               DLabels(labeled_frames, videos, skeletons[0])):
+            dp = first(prov.LabelsReaderDP(labels, user_instances_only=b["user_only"]))
+        labels2 = build_labels(L1, mods)
+        fn = {int(lf.frame_idx): prov.process_lf(lf, 0, M, b["user_only"]) for lf in labels2}
+        keeps = [(not b["user_only"]) or any(not i["pred"] for i in insts) for insts in b["frames"]]
+        r = None
+        if len(dp) != sum(keeps):
+            r = f"LabelsReaderDP yields {len(dp)} frames, {sum(keeps)} have user instances"
+        for ex in dp:
+            f = fn[int(ex["frame_idx"])]
+            for key in ("image", "instances"):
+                r = r or close(ex[key].float(), f[key].float(), 1e-6, 0, mods)
+            if int(ex["num_instances"]) != int(f["num_instances"]):
+                r = r or f"num_instances {ex['num_instances']} vs {f['num_instances']}"
+        cins = lambda insts: core.clist(insts, lambda i: f"({core.cbool(i['pred'])}, {core.clist(i['pts'], ckp)})")
+        terms = [f"CBlockReader {core.cbool(d)} {core.cbool(b['user_only'])} {M}%nat {cins(insts)}"
+                 for insts in b["frames"] for d in (True, False)]
+
+        def chk(ms):
+            di = 0
+            for fi, insts in enumerate(b["frames"]):
+                md, mf = ms[2 * fi], ms[2 * fi + 1]
+                if bool(md) != keeps[fi]:
+                    return f"reader keeps frame {fi}: model {bool(md)}, expected {keeps[fi]}"
+                pairs = [(mf[0], fn[fi])]
+                if md:
+                    pairs.append((md[0], dp[di]))
+                    di += 1
+                for mo, x in pairs:
+                    want = torch.stack([pts_tensor(i, mods) for i in mo[1]]) if mo[1] else torch.zeros((0, b["n"], 2))
+                    rr = close(x["instances"].reshape(-1, b["n"], 2), want, PT_ATOL, PT_RTOL, mods)
+                    if rr or int(x["num_instances"]) != mo[3]:
+                        return f"frame {fi}: instances / num_instances vs model: {rr} ({x['num_instances']} vs {mo[3]})"
+        return r, terms, chk
     # target generators: DataPipe vs function on the implementation (their model is C01 / C05)
     img = block_image(b, mods)
     pts = insts_tensor(b["insts"], mods)
@@ -910,9 +1232,12 @@ def load_mods():
                                confidence_maps as cm, edge_maps as em, normalization as norm, resizing as rs,
                                instance_centroids as ic, instance_cropping as icr, pipelines)
     from sleap_nn.data.providers import get_max_instances
+    from sleap_nn.data import providers
+    from loguru import logger as _lg
+    _lg.disable("sleap_nn.data.resizing")      # SizeMatcher logs an ERROR before raising (expected, modelled)
     return {"np": np, "torch": torch, "sio": sio, "ld": ld, "DictConfig": DictConfig, "PILImage": Image.Image,
             "S": S, "cd": cd, "gc": gc, "sd": sd, "cm": cm, "em": em, "norm": norm, "rs": rs, "ic": ic,
-            "icr": icr, "get_max_instances": get_max_instances, "pipelines": pipelines}
+            "icr": icr, "get_max_instances": get_max_instances, "pipelines": pipelines, "providers": providers}
 
 
 def detect_write_through(mods):
@@ -924,13 +1249,14 @@ def detect_write_through(mods):
     return not bool(torch.isnan(pts[0, 0, 0]).any())
 
 
-def run_case(run, c, mods, scratch, wt, origin):
+def run_case(run, c, mods, scratch, wt, origin, lit=None):
     """Implementation part of one pipeline case: oracle + what the model comparison needs."""
     L, cfg = c["labels"], c["cfg"]
-    res = run_frameworks(L, cfg, mods, scratch)
+    res = run_frameworks(L, cfg, mods, scratch, lit)
     bad = oracle(L, cfg, res, mods)
     for pair, why in bad:
         run.violation("failing-input", {"case": enc(c), "frameworks": list(pair), "oracle": why, "origin": origin,
+                                        "real_litdata_chunk_size": lit,
                                         "clause": "same (frame, instance) => same image/crop (<= 1/255), keypoints/"
                                                   "centroids, confidence maps, PAFs"})
     return res, bad
@@ -953,7 +1279,7 @@ def _check(run, mods, rng, thorough, scratch):
     run.notes.append(f"generate_centroids writes through the anchor view (DESIGN F5): {wt}; "
                      "the model is evaluated with c_wt set accordingly, the agreement theorems hold for both values")
     n_cases = 2400 if thorough else 160
-    n_blocks = 6000 if thorough else 450
+    n_blocks = 6600 if thorough else 550
     cases = []
     cdir = core.CORPUS / "C18"
     for f in sorted(cdir.glob("*.json")) if cdir.exists() else []:
@@ -982,16 +1308,31 @@ def _check(run, mods, rng, thorough, scratch):
             continue
         cases.append(("gen", {"labels": L, "cfg": cfg}))
 
+    # --- which cases also go through the REAL litdata round trip (litdata.optimize on disk, ~5 s each)
+    lit_for = {}
+    per_type = 3 if thorough else 1
+    seen = {t: 0 for t in TYPES}
+    for ci, (origin, c) in enumerate(cases):
+        t = c["cfg"]["mtype"]
+        if origin == "gen" and seen[t] < per_type and (len(sample_plan(c["labels"], c["cfg"])) >= 2 or ci > 60):
+            if t != "centered" or c["cfg"]["scale"] == 1 or seen[t] > 0:
+                seen[t] += 1
+                lit_for[ci] = 1 if (len(lit_for) % 2 == 0) else 2        # items per .bin file
+
     # --- implementation runs + oracle
     dist = {}
     impl = []
     n_samples = 0
-    for origin, c in cases:
+    for ci, (origin, c) in enumerate(cases):
         cfg = c["cfg"]
         for key in (cfg["mtype"], f"scale={cfg['scale']}", f"max_stride={cfg['max_stride']}", f"rgb={cfg['is_rgb']}",
                     "anchor=None" if cfg["anchor"] is None else "anchor=node", origin.split(":")[0]):
             dist[key] = dist.get(key, 0) + 1
-        res, bad = run_case(run, c, mods, scratch, wt, origin)
+        for key in ("max_hw=None" if cfg["max_hw"][0] is None else
+                    "max_hw<frame" if any(v["h"] > cfg["max_hw"][0] or v["w"] > cfg["max_hw"][1] for v in c["labels"]["videos"])
+                    else "max_hw>=frames", "dp_domain" if dp_domain(c["labels"], cfg) else "dp_outside_domain"):
+            dist[key] = dist.get(key, 0) + 1
+        res, bad = run_case(run, c, mods, scratch, wt, origin, lit_for.get(ci))
         impl.append((res, bad))
         ns = 0 if isinstance(res["Mem"], Exception) else len(res["Mem"])
         n_samples += ns
@@ -1012,21 +1353,57 @@ def _check(run, mods, rng, thorough, scratch):
                 ok, detail = False, f"{type(e).__name__}: {e}"
             run.obligation("witness of centered_scale_ne_1_differs reproduces on the implementation "
                            "(Mem 32x32 / Str 16x16, keypoints as stated)", ok, detail)
+    # the stand-in used for the other cases (litdata's serialisers in memory, StreamingDataset.__init__/__getitem__
+    # stubbed) returns exactly what the real on-disk round trip returns
+    lit_n = lit_bad = lit_bins = lit_samples = 0
+    lit_detail = ""
+    for ci, chunk in lit_for.items():
+        res, _ = impl[ci]
+        lit_n += 1
+        L, cfg = cases[ci][1]["labels"], cases[ci][1]["cfg"]
+        A, B = res.get("Lit"), res.get("Str")
+        why = None
+        if isinstance(A, Exception) or isinstance(B, Exception):
+            why = f"raised: {A if isinstance(A, Exception) else B}"
+        elif len(A) != len(B):
+            why = f"{len(A)} vs {len(B)} samples"
+        else:
+            lit_bins += res.get("Lit_bins", 0)
+            lit_samples += len(A)
+            for i, (a, b) in enumerate(zip(A, B)):
+                why = compare_samples(cfg["mtype"], a, b, L["n_nodes"], mods, False)
+                if why:
+                    why = f"sample {i}: {why}"
+                    break
+        if why:
+            lit_bad += 1
+            lit_detail = lit_detail or f"case {ci} ({cfg['mtype']}, chunk_size {chunk}): {why}"
+    run.obligation("real litdata round trip (litdata.optimize -> .bin chunks -> *StreamingDataset) == the in-memory "
+                   "serialiser stand-in of the Str leg, sample by sample (<= 2e-6)", lit_bad == 0 and lit_n > 0,
+                   lit_detail or f"{lit_n} cases")
     run.log(f"{len(cases)} pipeline cases, {n_samples} samples per framework, "
             f"{sum(1 for _, b in impl if b)} with an oracle failure")
 
     # --- the model on the same cases
     terms, owners = [], []
+    dp_plans = {}
     for ci, (origin, c) in enumerate(cases):
         ts = model_terms(c["labels"], c["cfg"], wt)
         terms += ts
-        owners += [ci] * len(ts)
+        owners += [(ci, "fw")] * len(ts)
+        dp_plans[ci] = dp_model_terms(c["labels"], c["cfg"], wt)
+        terms += [t for _, _, t in dp_plans[ci]]
+        owners += [(ci, "dp")] * len(dp_plans[ci])
     model = core.coq_eval_sharded(PREAMBLE, terms, "run", "routs", shard=40, jobs=12)
-    by_case = {}
-    for ci, m in zip(owners, model):
-        by_case.setdefault(ci, []).append(m[0])
+    by_case, dp_by_case = {}, {}
+    for (ci, kind), m in zip(owners, model):
+        if kind == "fw":
+            by_case.setdefault(ci, []).append(m[0])
+        else:
+            dp_by_case.setdefault(ci, []).append(m)
     disagree = 0
     probe_stats = {}
+    dp_stats = {"examples": 0, "raised_as_modelled": 0}
     for ci, (origin, c) in enumerate(cases):
         L, cfg = c["labels"], c["cfg"]
         res, bad = impl[ci]
@@ -1051,6 +1428,16 @@ def _check(run, mods, rng, thorough, scratch):
                     break
             if why:
                 break
+        if not why and "DP" in res:
+            try:
+                why = dp_compare_with_model(L, cfg, res["DP"], dp_plans[ci], dp_by_case.get(ci, []), mods, probe_stats)
+            except Exception as e:  # noqa: BLE001
+                why = f"comparison failed: {type(e).__name__}: {e}"
+            if why:
+                why = f"composed DataPipe pipeline: {why}"
+            else:
+                dp_stats["examples"] += len(res["DP"][0])
+                dp_stats["raised_as_modelled"] += res["DP"][1] is not None
         if why:
             disagree += 1
             if disagree <= 5:
@@ -1060,12 +1447,13 @@ def _check(run, mods, rng, thorough, scratch):
                 (core.REPLAYS / "C18").mkdir(parents=True, exist_ok=True)
                 (core.REPLAYS / "C18" / f"correspondence_{disagree}.json").write_text(
                     json.dumps({"case": enc(c), "why": why, "origin": origin}, indent=1))
-    run.obligation("correspondence: Pipelines.pipeline (Coq, vm_compute) == each framework's real sample "
+    run.obligation("correspondence: Pipelines.pipeline / dp_pipeline (Coq, vm_compute) == each framework's real sample and "
+                   "each composed legacy pipeline's example "
                    "(sizes, value range, keypoints, centroids, bbox, num_instances, targets from the model's inputs)",
                    disagree == 0, f"{disagree} disagreeing cases")
 
     # --- DataPipe blocks
-    kinds = ["norm", "resize", "pad", "centroid", "crop", "cm", "mcm", "ccm", "paf"]
+    kinds = ["norm", "resize", "pad", "centroid", "crop", "cm", "mcm", "ccm", "paf", "sm", "rd"]
     bterms, bown, blocks = [], [], []
     dp_bad = 0
     for bi in range(n_blocks):
@@ -1103,7 +1491,8 @@ def _check(run, mods, rng, thorough, scratch):
         "input_distribution": dist, "pipeline_cases": len(cases), "samples_per_framework": n_samples,
         "block_cases": n_blocks, "model_disagreements": disagree, "block_model_disagreements": bdis,
         "datapipe_vs_function_failures": dp_bad, "float_hazard_cases_skipped": hazards,
-        "content_map_probe": probe_stats,
+        "content_map_probe": probe_stats, "composed_datapipe": dp_stats,
+        "real_litdata": {"cases": lit_n, "samples": lit_samples, "bin_files": lit_bins},
         "rule": "pipeline case = (label set: videos, frames, instances with NaN pattern / empty / predicted instances; "
                 "model type, scale, max_stride, is_rgb, max_hw, anchor, crop, sigmas, strides); each case is run through "
                 "three frameworks; non-trivial = at least one sample; block case = (block kind, random example)",
@@ -1140,7 +1529,7 @@ def replay(run: core.Run, path: str) -> int:
             print(json.dumps({"oracle": r}))
             return 1 if r else 0
         c = fix_case(dec(rep["case"]))
-        res = run_frameworks(c["labels"], c["cfg"], mods, scratch)
+        res = run_frameworks(c["labels"], c["cfg"], mods, scratch, rep.get("real_litdata_chunk_size"))
         bad = oracle(c["labels"], c["cfg"], res, mods)
         print(json.dumps({"oracle": [[list(p), w] for p, w in bad]}))
         return 1 if bad else 0
